@@ -8,6 +8,8 @@ import numpy as np
 
 CLASSES = ['Periodogram', 'pcorrelogram', 'pburg', 'pyule', 'pcovar', 'pmodcovar', 'parma', 'pma',
            'pminvar', 'pmusic', 'pev', 'MultiTapering']
+# variants of a class with another method (same class-level clauses): 'Name:variant'
+VARIANTS = ['MultiTapering:adapt', 'MultiTapering:unity']
 
 # model orders etc. used throughout (documented domain, modest)
 PARAMS = {'order': 4, 'lag': 12, 'P': 3, 'Q': 3, 'armalag': 12, 'maQ': 3, 'maM': 10, 'IP': 8, 'NSIG': 2,
@@ -18,6 +20,9 @@ def build(name, x, nfft, sampling=1.0, scale=False, **over):
     import spectrum as sp
     p = dict(PARAMS)
     p.update(over)
+    if ':' in name:
+        name, variant = name.split(':')
+        p['mtm'] = variant
     kw = dict(NFFT=nfft, sampling=sampling, scale_by_freq=scale)
     if name == 'Periodogram':
         return sp.Periodogram(x, window=p.get('window', 'hann'), **kw)
@@ -37,6 +42,7 @@ def build(name, x, nfft, sampling=1.0, scale=False, **over):
 
 
 def outputs(name, obj):
+    name = name.split(':')[0]
     out = {'psd': np.array(obj.psd)}
     for attr, key in (('ar', 'ar'), ('ma', 'ma'), ('rho', 'rho'), ('reflection', 'reflection'),
                       ('eigenvalues', 'sv'), ('weights', 'weights')):
